@@ -10,7 +10,7 @@ import vf
 import c19_dnsgen as g
 
 LEVEL = "exploration"
-BUILDS = [("c19_dns", "asan")]
+BUILDS = [("c19_dns", "asan"), ("c19_fuzz", "fuzz")]
 
 TYPED_IDX = {k: 4 + i for i, k in enumerate(g.TYPED_ORDER)}   # position in the brief count vector
 
@@ -346,6 +346,61 @@ def cache_shard(job):
     return rr
 
 
+def run_fuzz(ctx, runs_per_job, jobs):
+    """libFuzzer on DnsMessage::parse (thorough): corpus seeded with generated messages and mutants, bounded by -runs"""
+    fb = vf.build("c19_fuzz", "fuzz")
+    d = os.path.join(ctx.tmp, "fuzz")
+    corpus = os.path.join(d, "corpus")
+    os.makedirs(corpus, exist_ok=True)
+    rng = random.Random(ctx.seed ^ 0xF019)
+    n = 0
+    for i in range(400):
+        m = g.gen_message(rng)
+        if len(m.wire) > 2048:
+            continue
+        with open(os.path.join(corpus, "m%04d" % i), "wb") as fh:
+            fh.write(m.wire)
+        n += 1
+        if i % 4 == 0:
+            for j, (b, cls, _e) in enumerate(g.mutants(rng, m, 2)):
+                if len(b) <= 2048:
+                    with open(os.path.join(corpus, "x%04d-%d" % (i, j)), "wb") as fh:
+                        fh.write(b)
+    workers = min(jobs, vf.NCPU)
+    args = ["-runs=%d" % runs_per_job, "-jobs=%d" % jobs, "-workers=%d" % workers, "-max_len=2048", "-seed=%d" % ctx.seed,
+            "-artifact_prefix=%s/artifact-" % d, "-print_final_stats=1", "-timeout=25", "-rss_limit_mb=3000", corpus]
+    rr = vf.run_harness(fb, args, timeout=3000, cwd=d, parse_stdout=False)
+    ctx.flavors.add("fuzz")
+    execs, logs = 0, ""
+    for f in sorted(os.listdir(d)):
+        if f.startswith("fuzz-") and f.endswith(".log"):
+            with open(os.path.join(d, f), "r", errors="replace") as fh:
+                t = fh.read()
+            logs += t
+            for mm in re.finditer(r"stat::number_of_executed_units:\s*(\d+)", t):
+                execs += int(mm.group(1))
+    ctx.obs("fuzz_executions", execs)
+    ctx.obs("fuzz_seed_corpus", n)
+    ctx.evaluations += execs
+    arts = {}
+    for a in os.listdir(d):
+        if a.startswith("artifact-"):
+            with open(os.path.join(d, a), "rb") as fh:
+                arts[a] = fh.read()[:1500].hex()
+    for mm in re.finditer(r"C19-FUZZ-VIOL (\S+) (.*)", logs + rr.err):
+        ctx.violation(mm.group(1), "libFuzzer in-process assertion: " + mm.group(2)[:200], dict(artifacts=arts))
+    for rep in vf.parse_sanitizer(logs + "\n" + rr.err):
+        if "deadly-signal" in rep["key"] and "C19-FUZZ-VIOL" in logs:
+            continue                                  # the abort() of an in-process assertion, already reported
+        ctx.san_reports += 1
+        key, what, text = crash_key(dict(stderr=rep["text"]))
+        ctx.violation(key, what + " [libFuzzer]", dict(report=text, artifacts=arts))
+    if rr.timed_out:
+        ctx.inconcl("libFuzzer run hit the outer watchdog")
+    if execs == 0:
+        ctx.inconcl("libFuzzer executed nothing: " + (rr.err[-300:] or logs[-300:]))
+
+
 def _merge(ctx, acc):
     ctx.evaluations += acc.evals
     ctx.add_sigs(acc.sigs)
@@ -369,7 +424,7 @@ def run(ctx):
     binary = vf.build("c19_dns", "asan")
     ctx.flavors.add("asan")
     W = 16
-    rounds = 40 if thorough else 1
+    rounds = 30 if thorough else 1
     # per shard and round: 1875 well-formed + 650 bases x 15 mutants + ~22 truncation sweeps + 600 random strings
     djobs = [(ctx.seed, s, rounds, binary, ctx.tmp, 1875, 650, 15, 22, 600, s == 0) for s in range(W)]
     qjobs = [(ctx.seed, s, binary, ctx.tmp, (40000 if thorough else 1500)) for s in range(W)]
@@ -387,6 +442,9 @@ def run(ctx):
             ctx.ingest(rr, where="(cache histories)")
             if getattr(rr, "bad", None):
                 ctx.inconcl(rr.bad)
+    if thorough:
+        run_fuzz(ctx, 750_000, 12)
+        ctx.require_obs("fuzz_executions")
     ctx.rule = ("decode: every well-formed message from the generator (own encoder/compressor) must come back as exactly its header, questions, "
                 "section records and typed records; every mutant/truncation/random string must end in a result or DnsParseException with no sanitizer "
                 "report, no dead or spinning child and CPU time <= 5 ms + 20 us/byte; a rewritten pointer (self, loop, 2-cycle, out of range) on a "
@@ -424,14 +482,28 @@ def replay(ctx, path):
         rr = cache_shard((d.get("seed", rp.get("seed", 1)), binary, ctx.tmp, d["history"], 1, 80))
         ctx.ingest(rr, where="(replay)")
     elif "hex" in d and "..." not in d["hex"]:
+        key = rp.get("key", "")
+        wire = bytes.fromhex(d["hex"])
         inp, outp = os.path.join(ctx.tmp, "replay.bin"), os.path.join(ctx.tmp, "replay.jsonl")
-        g.write_batch(inp, [(bytes.fromhex(d["hex"]), 0)])
+        g.write_batch(inp, [(wire, 0)])
         rr = vf.run_harness(binary, ["--mode", "decode", "--in", inp, "--out", outp], timeout=300, out_file=outp)
         for r in rr.records:
             print(json.dumps({k: (v if k != "stderr" else v[:2000]) for k, v in r.items()})[:4000])
             if r.get("t") in ("crash", "hang"):
-                key, what, text = crash_key(r)
-                ctx.violation(key, what, dict(report=text))
-        ctx.case("replay", dict(replayed=path))
+                k2, what, text = crash_key(r) if r["t"] == "crash" else (key, "decoder spinning again", "")
+                ctx.violation(k2, what, dict(report=text, hex=d["hex"]))
+            elif "i" in r:
+                again = False
+                if ":accepted" in key:
+                    again = "ok" in r
+                elif "superlinear" in key:
+                    again = r.get("ns", 0) > time_bound_ns(len(wire))
+                elif "mismatch" in key or "typed-record-dropped" in key:
+                    again = "ok" in r and g.normalise_actual(r["r"]).get(d.get("field"), [])[:4] != d.get("expected")
+                elif key.endswith("rejected") or ":exception:" in key:
+                    again = "ex" in r
+                if again:
+                    ctx.violation(key, "reproduced: " + (rp.get("first") or {}).get("what", ""), dict(hex=d["hex"], outcome={k: v for k, v in r.items() if k != "r"}))
+        ctx.case("replay", dict(replayed=path, bytes=len(wire)))
     else:
         ctx.inconcl("replay file carries no re-runnable input")
